@@ -3,7 +3,7 @@
 import json, os, re, sys
 sys.path.insert(0, os.path.dirname(os.path.abspath(__file__)))
 from common import *
-from u1000_common import coq_cases_noglob
+from u1000_common import coq_cases_noglob, forbidden_in_own_files
 
 ck = Check("C17", level="proof")
 broken = []
@@ -16,7 +16,7 @@ def bail(key, what, log):
     ck.violation(key, what, {"log": log[-3000:]}, no_input=True)
     ck.finish({"evaluations": 1, "distinct_nontrivial": 0, "rule": "n/a", "samples": [what]})
 
-ok, out = ck.forbidden_vernac()
+ok, out = forbidden_in_own_files(ck)
 if not ok:
     broken.append(("forbidden-vernacular", out))
 
@@ -52,7 +52,7 @@ if ck.thorough():
     args += ["-gen", "300", "-perms", "3", "-mono", "2", "-cperms", "2", "-cmono", "2", "-variants", "20", "-maxnodes", "9000",
              "-corpus", REPO + ":./unused+./pattern+./config+./lintcmd/...+./analysis/...+./go/ir+./staticcheck/..."]
 else:
-    args += ["-gen", "30", "-perms", "2", "-mono", "1", "-cperms", "1", "-cmono", "1", "-variants", "5", "-maxnodes", "2500",
+    args += ["-gen", "26", "-perms", "2", "-mono", "1", "-cperms", "1", "-cmono", "1", "-variants", "5", "-maxnodes", "1500",
              "-corpus", REPO + ":./unused+./config"]
 env = dict(GOENV); env["VERIF_REPO"] = REPO
 rc, out = sh(args, timeout=6000, env=env)
